@@ -72,6 +72,10 @@ def param_alternatives(ctx, h0, name, kind):
         v = Const(name, BoolSort()); return [(B(v), [])]
     if kind == 'key':
         return [(('key', Const(name, c.Key)), [Const(name, c.Key) != c.KEY_NS])]
+    if kind == 'optkey':
+        return [(R(c.null), [])] + param_alternatives(ctx, h0, name, 'key')
+    if kind.startswith('optis:'):
+        return [(R(c.null), [])] + param_alternatives(ctx, h0, name, kind[3:])
     if kind == 'str':
         return [(('str', '?'), [])]
     if kind == 'iter':
@@ -163,6 +167,7 @@ def run_function(repo, cls, name, kind, params, spec_module='specs.ir', opts=Non
             args = [R(self_) if is_ir_self else ('obj', cls)]
             for v, assumptions in combo:
                 args.append(v); st.pc += assumptions
+            if hasattr(sm_posts, 'arg_pre'): st.pc += sm_posts.arg_pre(ctx, spec, h0, fi.qual, args)
             if not se.sat(st):
                 record('VACUITY/%s/precondition-satisfiable' % fi.qual, 'failed', 0, 'Inv and parameter assumptions are contradictory')
                 continue
@@ -202,6 +207,8 @@ def run_function(repo, cls, name, kind, params, spec_module='specs.ir', opts=Non
                     stt, dt, why, be = discharge(ctx, s.pc, g, opts.get('timeout_ms', 20000), stages='first')
                     if stt == 'discharged': record(oname, stt, dt, why, be)
                     else: pending.append((oname, g))
+                # an obligation that already failed (after the full pipeline, on a feasible path) stays failed: further paths add nothing
+                pending = [(o_, g_) for o_, g_ in pending if not (agg.get(o_) and agg[o_][0] == 'failed')]
                 if pending:
                     still = []
                     for oname, g in pending:
